@@ -78,6 +78,17 @@ Proof. exact EvictHost.poll_next_pending_quiet_and_subscribed. Qed.
 Theorem C05_wake_never_runs_out_of_fuel : forall n w H, EvictHost.OrdH H -> wake (n + wfuel w) w H = wake (wfuel w) w H.
 Proof. intros n w H O. apply EvictHost.wake_fuel_suffices, EvictHost.OrdH_AOrd, O. Qed.
 
+(* ... so the wake chain reaches the executor at ANY nesting depth, with the fuel a wake really starts with, in every
+   heap that satisfies the order invariant - which every state of a directly driven command and of an app under a
+   Core does (C07_order_invariant_preserved, C07_order_invariant_under_a_core) *)
+From Crux Require Rt.CoreOrd.
+Theorem C05_wake_reaches_executor_at_any_depth : forall l H w q,
+  EvictHost.OrdH H -> chain H w l q -> xready (wake (wfuel w) w H) = xready H ++ [q].
+Proof. exact CoreOrd.wake_reaches_executor_any_depth. Qed.
+Theorem C05_wake_reaches_executor_under_a_core : forall FUEL hs k l w q,
+  CoreOrd.creach FUEL hs core0 k -> chain (k_H k) w l q -> xready (wake (wfuel w) w (k_H k)) = xready (k_H k) ++ [q].
+Proof. intros FUEL hs k l w q R. apply CoreOrd.wake_reaches_executor_any_depth. eapply CoreOrd.core_reachable_OrdH; exact R. Qed.
+
 (* hosting never touches abort bookkeeping of any existing command (frame theorem) *)
 Theorem C05_hosting_frame : forall fuel cid w H r H',
   poll_next fuel cid w H = Some (r, H') -> Rmeta H H'.
